@@ -92,6 +92,35 @@ def run_impl(P, requests):
         out.append(("val", full))
     return out
 
+def to_float(m):
+    return np.array([[complex(float(z[0]), float(z[1])) for z in row] for row in m])
+
+def run_impl_numeric(P, requests, carrier):
+    """the same problem through the floating-point carriers: dense ndarray / scipy.sparse (the exact model value is the reference)"""
+    from scipy import sparse
+    cplx = any(z[1] != 0 for m in P["terms"].values() for row in m for z in row)
+    def conv(m):
+        a = to_float(m)
+        if not cplx: a = a.real.copy()
+        return sparse.csr_array(a) if carrier == "sparse" else a
+    H = {n: conv(m) for n, m in P["terms"].items()}
+    fd = P["fd_py"]
+    Ht, U, Ud = block_diagonalize(H, subspace_indices=P["blocks"], fully_diagonalize=fd, hermitian=P["hermitian"])
+    S = {"H_tilde": Ht, "U": U, "U†": Ud}; out = []
+    d = P["d"]; off = P["off"]; sizes = P["sizes"]
+    for (name, i, j, n) in requests:
+        try:
+            v = S[name][(i, j) + tuple(n)]
+        except Exception as e:
+            out.append(("err", type(e).__name__, str(e))); continue
+        full = np.zeros((d, d), dtype=complex)
+        if v is zero: out.append(("zero", full)); continue
+        if v is one: v = np.eye(sizes[i])
+        if hasattr(v, "toarray"): v = v.toarray()
+        full[off[i]:off[i] + sizes[i], off[j]:off[j] + sizes[j]] = np.asarray(v, dtype=complex)
+        out.append(("val", full))
+    return out
+
 def to_json(P, requests, algo):
     d = P["d"]
     return json.dumps({"cmd": "bd", "algo": algo, "d": d, "blocks": P["blocks"], "nblocks": P["N"], "nparams": P["k"],
@@ -215,6 +244,7 @@ def ser_problem(P):
 def main(seed, ncases, driver, out, mode="all"):
     rnd = random.Random(seed)
     proc = subprocess.Popen([driver], stdin=subprocess.PIPE, stdout=subprocess.PIPE, text=True)
+    num_stats = {}; num_worst = 0.0; num_evals = 0
     failures = []; stats = {}; samples = []; evals = 0; distinct = set(); t_impl = t_model = t_oracle = 0.0; oracle_cases = 0; in_class_ok = 0
     for c in range(ncases):
         if skip(c): continue
@@ -253,6 +283,26 @@ def main(seed, ncases, driver, out, mode="all"):
                 failures.append({"case": c, "kind": "value-mismatch", "request": list(r[:3]) + [list(r[3])], "problem": ser_problem(P),
                                  "impl": [[gstr(z) for z in row] for row in fa], "model": [[gstr(z) for z in row] for row in fb]}); break
             if sum(r[3]) >= 2 and fa != zero_m: nontrivial = True
+        # floating-point carriers against the exact model value (rounding proportional to the size of the terms)
+        if not any(f["case"] == c for f in failures):
+            carrier = rnd.choice(["dense", "sparse"]); num_stats[carrier] = num_stats.get(carrier, 0) + 1
+            try:
+                num = run_impl_numeric(P, reqs, carrier)
+            except Exception as e:
+                num = [("exc", type(e).__name__, str(e)[:100])] * len(reqs)
+            for r, a, b in zip(reqs, num, model):
+                if a[0] in ("exc", "err") or b[0] == "err":
+                    if not (a[0] in ("exc", "err") and b[0] == "err"):
+                        failures.append({"case": c, "kind": "error-mismatch-numeric", "carrier": carrier, "request": list(r[:3]) + [list(r[3])],
+                                         "impl": [str(x) for x in a[:3]], "model": b[0], "problem": ser_problem(P)}); break
+                    continue
+                ref = to_float(b[1]) if b[0] != "zero" else np.zeros((P["d"], P["d"]), dtype=complex)
+                if not np.all(np.isfinite(a[1])):
+                    failures.append({"case": c, "kind": "non-finite-numeric-output", "carrier": carrier, "request": list(r[:3]) + [list(r[3])], "problem": ser_problem(P)}); break
+                err = float(np.abs(a[1] - ref).max()); scale = 1 + float(np.abs(ref).max()); num_worst = max(num_worst, err / scale); num_evals += 1
+                if err > 1e-9 * scale:
+                    failures.append({"case": c, "kind": "value-mismatch-numeric", "carrier": carrier, "request": list(r[:3]) + [list(r[3])], "abs_err": err,
+                                     "problem": ser_problem(P)}); break
         if (hermitian or mode == "nh") and not any(f["case"] == c for f in failures) and impl and impl[0][0] != "exc":
             t0 = time.time()
             try:
@@ -269,7 +319,8 @@ def main(seed, ncases, driver, out, mode="all"):
         if len(samples) < 2: samples.append(ser_problem(P))
     proc.stdin.close()
     res = {"evaluations": evals, "cases": ncases, "distinct_nontrivial": len(distinct), "failures": failures, "distribution": stats,
-           "samples": samples, "impl_s": round(t_impl, 2), "model_s": round(t_model, 2), "oracle_s": round(t_oracle, 2), "oracle_cases": oracle_cases, "in_known_class_but_correct": in_class_ok}
+           "samples": samples, "impl_s": round(t_impl, 2), "model_s": round(t_model, 2), "oracle_s": round(t_oracle, 2), "oracle_cases": oracle_cases, "in_known_class_but_correct": in_class_ok,
+           "extra": {"numeric_carriers": num_stats, "numeric_elements": num_evals, "numeric_worst_relative_error": num_worst}}
     json.dump(res, open(out, "w"))
 
 if __name__ == "__main__":
